@@ -70,3 +70,62 @@ def sem_lang(aa_steps=(), bb_steps=(), dd_steps=()):
         assoc('Cross', 'Aa', 'lefts', '*', '*', 'rights', 'Cc'),
         assoc('Own', 'Dd', 'owner', '1', '*', 'owned', 'Base'),
     ], lang_id='org.verif.sem')
+
+
+# --------------------------------------------------------------------------- INH family
+
+INH_CHOICES = ('absent', 'none', 'over', 'ext')
+
+
+def inh_levels(depth4=False):
+    """(type, parent) root-down; L2 is a sibling of L1; optional 4th level under L1 (+ sibling)."""
+    lv = [('Rr', None), ('Mm', 'Rr'), ('L1', 'Mm'), ('L2', 'Mm')]
+    if depth4:
+        lv += [('K1', 'L1'), ('K2', 'L1')]
+    return lv
+
+
+def inh_shapes(depth4=False):
+    """All well-formed assignments level -> choice for step 'sx' ('+>' and a bare re-declaration
+    need a definition in some ancestor; the root cannot extend)."""
+    import itertools
+    lv = inh_levels(depth4)
+    par = dict(lv)
+    out = []
+    for combo in itertools.product(INH_CHOICES, repeat=len(lv)):
+        ch = {t: c for (t, _p), c in zip(lv, combo)}
+        ok = True
+        for t, _p in lv:
+            if ch[t] == 'ext':
+                a, found = par[t], False
+                while a:
+                    if ch[a] != 'absent':
+                        found = True
+                    a = par[a]
+                if not found:
+                    ok = False
+        if ok:
+            out.append(ch)
+    return out
+
+
+def inh_lang(shape, kind='or', depth4=False, ttc=None, tags=(), meta=None, requires=None):
+    """Language for one shape.  Every level's reaches names its own marker step m<Level> (all
+    markers live on the root).  Every re-declaration repeats type / TTC / tags / meta (DESIGN C02)."""
+    lv = inh_levels(depth4)
+    markers = [step('m' + t, 'or') for t, _p in lv]
+    assets = []
+    for t, p in lv:
+        steps = []
+        if p is None:
+            steps += markers
+            steps.append(step('ux', 'or', reaches=[S('mRr')]))
+        if t == 'Mm':
+            steps.append(step('ux', 'or', reaches=[S('mMm')], overrides=False))
+        c = shape[t]
+        if c != 'absent':
+            rs = None if c == 'none' else [S('m' + t)]
+            steps.append(step('sx', kind, reaches=rs, overrides=(c != 'ext'), ttc=ttc, tags=tags,
+                              meta=meta, requires=requires))
+        assets.append(asset(t, sup=p, steps=steps))
+    return spec(assets, [assoc('Link', 'Rr', 'ins', '*', '*', 'outs', 'Rr')], lang_id='org.verif.inh')
